@@ -653,14 +653,6 @@ impl Ctx<'_> {
             LuaSemanticDeclId::Signature(s) => format!("sig:{}", self.pos(s.get_file_id(), s.get_position())),
         }
     }
-    fn owner(&self, o: &LuaMemberOwner) -> String {
-        match o {
-            LuaMemberOwner::LocalUnresolve => "unresolved".into(),
-            LuaMemberOwner::Type(id) => format!("type:{}", self.type_id(id)),
-            LuaMemberOwner::Element(r) => format!("element:{}", self.loc(r.file_id, r.value)),
-            LuaMemberOwner::GlobalPath(g) => format!("global:{}", g.get_name()),
-        }
-    }
     fn key(&self, k: &LuaMemberKey) -> String {
         match k {
             LuaMemberKey::None => "<none>".into(),
